@@ -23,12 +23,14 @@ type seqChecker struct {
 	sess map[int]*Sess
 	gens map[int]int
 	// coverage
-	ncmd       int
-	nerr       int
-	typesHit   map[string]bool
-	typesSeen  map[mType]bool
-	wrongType  int
-	expiredHit int
+	ncmd           int
+	nerr           int
+	typesHit       map[string]bool
+	typesSeen      map[mType]bool
+	execNonEmpty   int
+	watchedTouched int
+	wrongType      int
+	expiredHit     int
 }
 
 func newSeqChecker(p *Plan) Checker {
@@ -62,6 +64,7 @@ func (c *seqChecker) OnReply(w *World, op *Op) *Violation {
 	now := w.WallNow().UnixNano()
 	argv := strs(op.Item.Args)
 	before := c.m.Clone()
+	sBefore := s.Clone()
 	exp := c.m.Apply(s, now, argv)
 	c.ncmd++
 	for _, a := range argv[1:] {
@@ -75,9 +78,21 @@ func (c *seqChecker) OnReply(w *World, op *Op) *Violation {
 	if exp.Mode == exErr && exp.Class == "WRONGTYPE" {
 		c.wrongType++
 	}
+	if name := cmdLower(op); name == "exec" && len(sBefore.Queue) > 0 && !op.Reply.IsErr() {
+		c.execNonEmpty++
+	} else if name != "watch" && name != "multi" && name != "exec" {
+		// did this command change a key some connection is watching?
+		for _, os := range c.sess {
+			for wk, v := range os.Watch {
+				if c.m.ver[wk] != v && before.ver[wk] == v {
+					c.watchedTouched++
+				}
+			}
+		}
+	}
 	if err := exp.Match(op.Reply); err != nil {
 		return &Violation{Oracle: "reply", Step: w.step,
-			Fp:  "reply:" + replyFingerprint(before, s, argv, exp, op.Reply),
+			Fp:  "reply:" + replyFingerprint(before, sBefore, argv, exp, op.Reply),
 			Msg: fmt.Sprintf("client %d command #%d %s: %v\nmodel state before: %s", op.Client, op.Idx, fmtArgs(argv), err, describeKeys(before, s, argv))}
 	}
 	if exp.Resolve != nil {
@@ -106,7 +121,7 @@ func (c *seqChecker) Extra() map[string]int {
 	for t := range c.typesSeen {
 		types[t] = true
 	}
-	return map[string]int{"types": len(types), "wrongtype": c.wrongType, "errors": c.nerr, "cmds": c.ncmd}
+	return map[string]int{"types": len(types), "wrongtype": c.wrongType, "errors": c.nerr, "cmds": c.ncmd, "exec-nonempty": c.execNonEmpty, "watched-touched": c.watchedTouched}
 }
 
 func fmtArgs(a []string) string {
@@ -182,6 +197,18 @@ func replyFingerprint(m *Model, s *Sess, argv []string, exp Expect, got Value) s
 	}
 	if optionsReordered(name, argv) {
 		rel += ":reordered"
+	}
+	if name == "exec" && exp.Mode == exExact && exp.V.K == KNil && got.K == KArray {
+		// which watched keys made the model abort?
+		aba := true
+		for wk, v := range s.Watch {
+			if m.ver[wk] != v && !(s.WatchMiss[wk] && m.dbs[wk.db][wk.key] == nil) {
+				aba = false
+			}
+		}
+		if aba {
+			rel += ":watched-missing-key-recreated-and-removed"
+		}
 	}
 	ek := "val"
 	switch exp.Mode {
